@@ -57,6 +57,11 @@ def isolation(ctx: Ctx, fi, node, depth=0, seen=None):
         for lp in loops:
             if paths.within(ctx.prog, lp, tr):      # loop lies inside the try body: the guard wraps the loop
                 return (fi, node, "guard at %s wraps the whole loop: one failing element aborts the rest" % fi.loc(tr))
+        # the handler is the last line of defence: what it does must not fail in turn
+        for s_, e_ in g.unguarded_sites(fi):
+            if any(paths.within(ctx.prog, s_.node, st) for st in h.body):
+                return (fi, s_.node, "the handler at %s can fail itself (`%s` may raise %s): the failure it was meant to contain escapes after all" % (
+                    fi.loc(h), norm(s_.node)[:50], "/".join(sorted(e_))))
         return None
     # statement-level loops without a guard inside: a failure aborts the remaining iterations in any case
     for lp in loops:
@@ -181,4 +186,6 @@ def run(ctx: Ctx, tier: str) -> Result:
         res.ok("C20.LOAD", {"sorted by order()": True})
     else:
         res.fail(Finding("C20.LOAD", lp.qname, "<sort by order()>", lp.loc(), "loaded plugins are not sorted ascending by order()"))
+    from .common import borrow
+    borrow(ctx, res, tier, "c19", ("C19.CHAIN",), "C20.SWITCH", "a plugin switch given in configuration resolves as documented (a falsy value is a value)")
     return res
